@@ -9,8 +9,9 @@ CONSTANTS
   Targets = {"c", "p"}
   Errs = {"", "revert"}
   AspErrs = {"", "fail"}
+  TxAsp = 1
   DevOffByOne = FALSE
   DevExitFirstOfType = FALSE
   DevFlatFilterParent = FALSE
-INVARIANTS TypeOK NoCrash FiledUnderIssuer OwnResult FilterExact FlatDesign Emit
+INVARIANTS TypeOK NoCrash FiledUnderIssuer OwnResult FilterExact FlatDesign
 CHECK_DEADLOCK FALSE
